@@ -17,6 +17,12 @@ def logSites : List (String × String × String × String) := [
   ("rewrite", "ServeHTTP", "request", "wrapped")
 ]
 
+/-- the same scan over every OTHER package of the module (core, cmd, caddytls, caddypki, logging, …): sites that log
+    request/response/header material outside the HTTP server's access, error and reverse-proxy debug logs -/
+def logSitesElsewhere : List (String × String × String × String) := [
+  ("caddy", "ServeHTTP", "headers", "raw:net/http.Header")
+]
+
 /-- the typed scan loaded and type-checked every package without error -/
 def logSitesScanComplete : Bool := true
 
